@@ -221,6 +221,7 @@ pub fn u_term(f: &F, tier: Tier) -> Vec<R> {
             items.extend([R::word("b1"), R::atom(Tag::QVar, "x-y"), R::interval(0)]);
             apply_all(&items, 2, &mut out); // T2(2)
             out.extend(towers(8));
+            out.extend(towers(40)); // beyond any plausible fixed nesting limit (16, 32)
             out.extend(wide_terms());
         }
         Tier::Thorough => {
